@@ -304,6 +304,22 @@ def history_cases(chk, rng):
             return chk.fail('post-touches-unit', "the caller's incoming profile was changed by an in-place processor", data)
 
 
+    # (b2) two levels: the processor is an ordinary unit (solved by Unit.solve) whose own class carries registrations - they run while it works for the outer unit
+    for kind in ('pre', 'post'):
+        Inner = type("Inner", (Transport,), {})
+        Inner.post_processors.append(lambda unit: Proc(500))
+        Inner.pre_processors.append(lambda unit: Proc(400))
+        Outer = type("Outer", (Transport,), {})
+        (Outer.pre_processors if kind == 'pre' else Outer.post_processors).append(lambda unit: Inner(label="inner stage", duration=0))
+        u = Outer(label="outer", duration=1)
+        calls.clear()
+        ret = u.solve(ip())
+        chk.cov['evaluations'] += 1
+        got = (list(calls), list(u.in_profile.marks), list(ret.marks))
+        want = ([400, 500], [400, 500] if kind == 'pre' else [], [400, 500])
+        if got != want:
+            return chk.fail('processor-nesting', f"a {kind}-processor that is an ordinary unit whose class has a pre- and a post-processor of its own (marks 400, 500): processors run "
+                            f"{got[0]}, outer in profile carries {got[1]}, returned profile {got[2]}; expected {want}", {'kind': kind})
     # (c) real Rotator units as processors, fed with a profile that has been turned before: the processor's result must not reach back into
     #     the unit's own outgoing state, nor into the out profile of the unit in front
     from pyroll.core import Rotator
